@@ -130,6 +130,11 @@ def run(e: Engine, rep: Report):
                 continue      # same chain, other CFG copy (finally dup.)
             seen.add(text)
             cover = [sc for sc in n.scopes if common.timeout_scope(e, sc)]
+            other = None if cover else common.covering_timeout(e, n)
+            if other:
+                rep.ok('T1', where, text, loc=n.loc(),
+                       reason='inside ' + other)
+                continue
             if not cover and isinstance(n.ast.func, ast.Attribute) and \
                     ('nb:' + canon(n.ast.func.value, n.frame)) in (
                         nb_before.get(n.id) or ()):
@@ -222,12 +227,14 @@ def t4(e: Engine, rep: Report):
         return out
     # exception edges out of calls are disregarded (the reply could not be
     # sent at all); explicit raise statements terminate the path.
-    after = dataflow.must_events_after(
-        g, ev, on_exit=frozenset(), on_raise=frozenset(),
-        edge=lambda p, l, s, si: (
-            None if (isinstance(l, tuple) and p.kind != 'stmt') else si))
     for i, h in enumerate(handlers):
         rep.evaluations += 1
+        hf0 = e.facts(g, start=h)
+        after = dataflow.must_events_after(
+            g, ev, on_exit=frozenset(), on_raise=frozenset(),
+            edge=lambda p, l, s, si, hf0=hf0: (
+                None if ((isinstance(l, tuple) and p.kind != 'stmt') or
+                         hf0.infeasible(p, l)) else si))
         st = after.get(h.id)
         got = set() if st is None or isinstance(st, dataflow.Top) else st
         if isinstance(st, dataflow.Top):
@@ -353,10 +360,14 @@ def t5(e: Engine, rep: Report):
             rep.error('anchor vanished: %s.__init__' % cq)
             continue
         # the attribute really is the duration of a Timeout scope
-        used = any(isinstance(n, ast.Call) and
-                   ast.unparse(n.func).endswith('Timeout') and n.args and
-                   ast.unparse(n.args[0]) == 'self.' + attr
-                   for m in c.methods.values() for n in walk_own(m.node))
+        # the attribute is what some timeout is armed with (whatever the
+        # idiom: Timeout(x), Timeout.start_new(x), with_timeout(x, ...), a
+        # helper taking the duration): it is passed to a call outside
+        # __init__
+        used = any(isinstance(n, ast.Call) and any(
+            ast.unparse(a) == 'self.' + attr for a in n.args)
+            for mn, m in c.methods.items() if mn != '__init__'
+            for n in walk_own(m.node))
         defs = [n for n in walk_own(init.node) if isinstance(n, ast.Assign)
                 and any(ast.unparse(t) == 'self.' + attr
                         for t in n.targets)]
